@@ -139,6 +139,16 @@ func runC06(p *Prog, l *Ledger) {
 					}
 					name, args := pr.mathCall(v)
 					progressed := false
+					// the clamp written as a branch: on this path the value is the floor itself, or is proved strictly below
+					// the old limit
+					if f, ok := constFloat(v); ok && f == 1 {
+						progressed = true
+					} else if name != "max" {
+						pr.budget = 4000
+						if pr.rel(atomField(af.A.Est), atomVal(v), true, 0) {
+							progressed = true
+						}
+					}
 					if name == "max" && len(args) == 2 {
 						for i, a := range args {
 							if f, ok := constFloat(pr.res(a)); ok && f == 1 {
